@@ -6,7 +6,8 @@ DEPS = ["harness/c12_io_common.hpp"]
 
 # PART -> (name, shards, floor of cases)
 PARTS = [(0, "bmp", 8, 900), (1, "pnm", 8, 900), (2, "targa", 8, 500), (3, "png8", 6, 700), (4, "jpeg", 4, 500),
-         (5, "tiff8", 8, 1800), (6, "tiff_other", 8, 2800), (7, "png16_bits", 8, 1200)]
+         (5, "tiff_gray8_rgb8", 6, 1000), (6, "tiff_rgba8_gray16", 6, 1000), (7, "png16", 6, 500),
+         (8, "tiff_rgb16_gray32f", 6, 1000), (9, "tiff_gray1_gray4", 6, 1000), (10, "png_bits", 6, 500)]
 PROBES = [(0, "make_scanline_reader.istream"), (1, "make_scanline_reader.FILEptr"), (2, "control.make_scanline_reader.filename")]
 
 CFG = dict(
